@@ -1,7 +1,7 @@
 """Imports every rule module so that the rules register themselves."""
 from . import rules_a, rules_b, rules_c  # noqa: F401
 
-for _m in ("rules_a2", "rules_v", "rules_d", "rules_d2", "rules_d3", "rules_e2", "rules_e", "rules_f", "rules_cc", "rules_go"):
+for _m in ("rules_a2", "rules_v", "rules_d", "rules_d2", "rules_d3", "rules_e2", "rules_e", "rules_f", "rules_cc", "rules_go", "rules_rt"):
     try:
         __import__(f"sa.{_m}")
     except ModuleNotFoundError as _e:  # module not written yet
